@@ -74,6 +74,22 @@ func init() {
 		} else {
 			return "", fmt.Errorf("consumerGroup.IsEmpty: return expression not found")
 		}
+		// replicator.IgnoreMessage: when does it acknowledge an unusable entry?
+		_, rf, err := ParseFile(repo, "replica/replicator.go")
+		if err != nil {
+			return "", err
+		}
+		ign := FindFunc(rf, "replicator", "IgnoreMessage")
+		ic := firstIfCond(ign)
+		fmt.Fprintf(&sb, "def ignoreMessageCalls : List String := %s\n\ndef ignoreCond : String := %q\n\n", LeanStrList(callSeqExec(ign)), ic)
+		switch ic {
+		case "currentAck+1 == replicaIdx":
+			sb.WriteString("/-- IgnoreMessage acknowledges only the entry right behind the acknowledged position -/\ndef ignoreExact : Bool := true\n\n")
+		case "currentAck < replicaIdx", "replicaIdx > currentAck":
+			sb.WriteString("/-- IgnoreMessage acknowledges any unusable entry above the acknowledged position -/\ndef ignoreExact : Bool := false\n\n")
+		default:
+			return "", fmt.Errorf("replicator.IgnoreMessage: unknown condition %q", ic)
+		}
 		atomic, err := C07AtomicAcquire(repo)
 		if err != nil {
 			return "", err
